@@ -465,9 +465,99 @@ func sqlRowsScan(e *Engine, st *State, args []Value, depth int, pos string, k fu
 	})
 }
 
+// callByContract: modular call. The callee's requires become obligations at the call site, its declared frame
+// (flag modifies=db) is havocked, results are unconstrained, and its ensures are assumed.
 func (e *Engine) callByContract(st *State, fn *ssa.Function, ct *Contract, args []Value, depth int, pos string, k func(*State, Value)) {
-	// filled in later: assert requires, havoc, assume ensures
-	e.callFunction(st, fn, args, nil, depth, k)
+	vars := map[string]Value{}
+	typs := map[string]types.Type{}
+	for i, p := range fn.Params {
+		if i < len(args) {
+			vars[p.Name()] = args[i]
+			typs[p.Name()] = p.Type()
+		}
+	}
+	pre := st.clone()
+	st.addTrace(TraceEv{Kind: "call:" + ct.Short, Pos: pos, Args: args})
+	// requires at the call site
+	envR := &rEnv{e: e, pre: pre, post: st, vars: copyVars(vars), typs: typs, specs: e.contracts.specs, pol: 1}
+	for _, l := range ct.Lets {
+		if !usesPost(l.Node) {
+			envR.vars[l.Name] = envR.eval(l.Node)
+		}
+	}
+	for _, rq := range ct.Requires {
+		g := envR.term(rq.Node)
+		if envR.err != nil {
+			st.incomplete = "callee precondition does not evaluate at " + pos + ": " + envR.err.Error()
+			e.endPath(st)
+			return
+		}
+		cl := rq
+		cl.Name = ct.Short + ".requires@" + fmt.Sprint(rq.Line)
+		cl.Props = allProps(ct)
+		e.addSideObl(st, cl, "at-"+sanitize(pos), g)
+	}
+	if w := ct.Flags["writes"]; w != "" {
+		// heap locations the callee may assign (paths from its parameters): havocked
+		for _, lv := range strings.Split(w, ",") {
+			n, err := parseRSL(lv)
+			if err != nil {
+				st.incomplete = "bad writes flag " + lv
+				continue
+			}
+			if !e.havocPath(st, fn, args, n) {
+				st.incomplete = "cannot resolve writes=" + lv + " at " + pos
+			}
+		}
+	}
+	if ct.Flags["modifies"] == "db" {
+		st.g.Docs = e.fresh(st, "docs.after."+ct.Short, SDocs)
+		st.g.BucketLastCas = e.fresh(st, "blc.after."+ct.Short, SInt)
+		st.g.CollLastCas = e.fresh(st, "clc.after."+ct.Short, SColls)
+	}
+	// results: each error result is either nil or an opaque error
+	sig := fn.Signature
+	n := sig.Results().Len()
+	var finish func(st *State, i int, acc []Value)
+	finish = func(st *State, i int, acc []Value) {
+		if i == n {
+			var ret Value
+			switch n {
+			case 0:
+			case 1:
+				ret = acc[0]
+			default:
+				ret = VTuple{acc}
+			}
+			env := &rEnv{e: e, pre: pre, post: st, vars: copyVars(vars), typs: typs, specs: e.contracts.specs, pol: -1, assuming: true}
+			e.bindResults(env, fn, ret)
+			for _, l := range ct.Lets {
+				env.vars[l.Name] = env.eval(l.Node)
+			}
+			for _, cl := range ct.Ensures {
+				if cl.On != "" {
+					continue
+				}
+				t := env.term(cl.Node)
+				if env.err != nil {
+					env.err = nil // clause not evaluable in this context: not assumed
+					continue
+				}
+				st.assume(t)
+			}
+			k(st, ret)
+			return
+		}
+		rt := sig.Results().At(i).Type()
+		if types.Identical(rt, types.Universe.Lookup("error").Type()) {
+			s2 := st.clone()
+			finish(s2, i+1, append(append([]Value{}, acc...), e.sentinelErr(s2, "opaque error from "+ct.Short)))
+			finish(st, i+1, append(append([]Value{}, acc...), VNil{}))
+			return
+		}
+		finish(st, i+1, append(append([]Value{}, acc...), e.havoc(st, rt, "res."+ct.Short)))
+	}
+	finish(st, 0, nil)
 }
 
 // genericLoopHeader implements the cut-point rule for loops that carry an invariant in the contract file
@@ -492,12 +582,19 @@ func (e *Engine) genericLoopHeader(st *State, fr *Frame, b *ssa.BasicBlock) (han
 		}
 	}
 	key := fmt.Sprintf("genloop/%d/%d", fr.id, b.Index)
-	var invs []Clause
+	var invs, havocs, checks []Clause
 	for _, cl := range cls {
-		if cl.Kind == "invariant" {
+		switch cl.Kind {
+		case "invariant":
 			invs = append(invs, cl)
+			checks = append(checks, cl)
+		case "body":
+			checks = append(checks, cl)
+		case "havoc":
+			havocs = append(havocs, cl)
 		}
 	}
+	cls = checks
 	if st.visits[key] > 0 {
 		for i, g := range e.evalLoopClauses(st, fr, cls, key, false) {
 			phase := "preserved"
@@ -515,6 +612,13 @@ func (e *Engine) genericLoopHeader(st *State, fr *Frame, b *ssa.BasicBlock) (han
 		e.addSideObl(st, invs[i], "entry", g)
 	}
 	choices := e.havocLoopTargets(st, fr, b)
+	for _, h := range havocs {
+		if c, ok := e.havocLvalue(st, fr, h.Node); ok {
+			choices = append(choices, c...)
+		} else {
+			st.incomplete = "cannot resolve `loop havoc " + h.Src + "`"
+		}
+	}
 	if st.loopMark == nil {
 		st.loopMark = map[string]int{}
 	} else {
@@ -558,6 +662,12 @@ func (e *Engine) genericLoopHeader(st *State, fr *Frame, b *ssa.BasicBlock) (han
 		for _, t := range e.evalLoopClauses(s2, fr, invs, "", true) {
 			s2.assume(t)
 		}
+		nh := make(map[string]*State, len(s2.loopHead)+1)
+		for a, b := range s2.loopHead {
+			nh[a] = b
+		}
+		nh[key] = s2.clone()
+		s2.loopHead = nh
 		if ci < len(combos)-1 {
 			s2.visits[fmt.Sprintf("%d/%d", fr.id, b.Index)]--
 			e.runFrom(s2, fr, b, k)
@@ -590,6 +700,11 @@ func (e *Engine) evalLoopClauses(st *State, fr *Frame, cls []Clause, iterKey str
 			pre = st.entry.clone()
 		}
 		env := &rEnv{e: e, pre: pre, post: st, vars: copyVars(vars), typs: typs, specs: e.contracts.specs, iterKey: iterKey}
+		if iterKey != "" {
+			if h, ok := st.loopHead[iterKey]; ok {
+				env.head = h.clone()
+			}
+		}
 		if assume {
 			env.pol, env.assuming = -1, true
 		} else {
@@ -604,4 +719,97 @@ func (e *Engine) evalLoopClauses(st *State, fr *Frame, cls []Clause, iterKey str
 		out = append(out, t)
 	}
 	return out
+}
+
+// havocLvalue resolves `param.field.field` to a heap location and havocks it by type; pointer-like locations
+// (lists, timers) yield choice points nil / fresh.
+func (e *Engine) havocLvalue(st *State, fr *Frame, n *rNode) ([]ptrChoice, bool) {
+	var chain []string
+	for n.Op == "field" {
+		chain = append([]string{n.Text}, chain...)
+		n = n.Args[0]
+	}
+	if n.Op != "id" {
+		return nil, false
+	}
+	var cur Value
+	var ct types.Type
+	for _, p := range fr.fn.Params {
+		if p.Name() == n.Text {
+			cur, ct = fr.regs[p], p.Type()
+		}
+	}
+	if cur == nil {
+		return nil, false
+	}
+	var loc VPtr
+	haveLoc := false
+	for _, f := range chain {
+		p, ok := cur.(VPtr)
+		if !ok {
+			return nil, false
+		}
+		bt := ct
+		if pt, ok := bt.Underlying().(*types.Pointer); ok {
+			bt = pt.Elem()
+		}
+		stt, ok := bt.Underlying().(*types.Struct)
+		if !ok {
+			return nil, false
+		}
+		idx := -1
+		for i := 0; i < stt.NumFields(); i++ {
+			if stt.Field(i).Name() == f {
+				idx = i
+			}
+		}
+		if idx < 0 {
+			return nil, false
+		}
+		e.load(st, p) // materialise
+		loc = VPtr{Cell: p.Cell, Path: fmt.Sprintf("%s.%d", p.Path, idx)}
+		haveLoc = true
+		ct = stt.Field(idx).Type()
+		cur = e.load(st, loc)
+	}
+	if !haveLoc {
+		return nil, false
+	}
+	if typeIsPkg(ct, "container/list", "List") {
+		l := loc
+		mk := func(s *State) Value {
+			seq := e.fresh(s, "list.seq", SEvSeq)
+			ln := e.fresh(s, "list.len", SInt)
+			s.assume(Ge(ln, IntLit(0)))
+			return VAbs{Kind: "list", ID: e.newCell(s, &ListObj{Seq: seq, Len: ln, NilT: TFalse})}
+		}
+		return []ptrChoice{{set: func(s *State, v Value) {
+			if _, isnil := v.(VNil); isnil {
+				e.store(s, l, VNil{})
+			} else {
+				e.store(s, l, mk(s))
+			}
+		}, options: []Value{VNil{}, VAbs{Kind: "freshlist"}}}}, true
+	}
+	e.store(st, loc, e.havoc(st, ct, "loophavoc"))
+	return nil, true
+}
+
+// havocPath havocks the location named by `param.field...` given actual arguments of fn.
+func (e *Engine) havocPath(st *State, fn *ssa.Function, args []Value, n *rNode) bool {
+	fr := &Frame{fn: fn, regs: map[ssa.Value]Value{}}
+	for i, p := range fn.Params {
+		if i < len(args) {
+			fr.regs[p] = args[i]
+		}
+	}
+	choices, ok := e.havocLvalue(st, fr, n)
+	if !ok {
+		return false
+	}
+	for _, c := range choices {
+		// pointer-like location: keep it simple and pick the fresh non-nil alternative last
+		c.set(st, c.options[len(c.options)-1])
+	}
+	return true
 }
